@@ -14,6 +14,11 @@ CHECKS = {
     text="All genotypes up to ploidy 8 x 8 alleles (10 x 10 thorough) and all string pairs over small alphabets up to a bounded length with every band are enumerated; larger ploidies/alleles (to 14/16) and strings to length 200 are sampled. Exhaustive inside the stated bounds, sampled beyond.",
     note="Trusted: math.comb-based VCF ordering formula and the full-matrix Levenshtein reference; pickle is not exercised because Genotype cannot be pickled by construction.",
     ref="DESIGN.md section 4, C19"),
+ "C07": dict(
+    technique="property-based testing (Hypothesis) of readselection against an interval-counting oracle (cap + maximality)",
+    text="Generated read sets (gapped / paired-like reads, preferred sources, bridging on/off, caps 1-7) are run through readselection; the oracle recounts span coverage and checks subset, cap and maximality. Thousands of distinct at-the-cap cases per run; no proof of absence.",
+    note="Trusted: the interval-counting oracle; reads cover >= 2 variants (documented precondition).",
+    ref="DESIGN.md section 4, C07"),
 }
 
 NOT_YET = {}
